@@ -214,6 +214,31 @@ n_harness! { 30, fn c08_integer_4n() { integer_contract::<4, true>() } }
 n_harness! { 30, fn c08_integer_7() { integer_contract::<7, false>() } }
 n_harness! { 30, fn c08_integer_7n() { integer_contract::<7, true>() } }
 
+/// Integers with CONCRETE digits (symbolic digits do not finish, see above): `:-7\r\n` and `:42\r\n`,
+/// every strict prefix (in particular the one that ends right after the sign) is Incomplete, the
+/// whole encoding followed by 3 SYMBOLIC bytes decodes to the value at the encoding's length.
+fn integer_concrete(neg: bool) {
+    let mut o = Out::<{ 16 }>::new();
+    o.put(b':');
+    if neg {
+        o.put(b'-');
+        o.put(b'7');
+    } else {
+        o.put(b'4');
+        o.put(b'2');
+    }
+    o.crlf();
+    o.tail();
+    let f = decode_contract(&o, true);
+    match &f {
+        Frame::Integer(x) => assert!(*x == if neg { -7 } else { 42 }, "integer does not round-trip"),
+        _ => assert!(false, "wrong frame variant"),
+    }
+    std::mem::forget(f);
+}
+n_harness! { 30, fn c08_integer_c_neg() { integer_concrete(true) } }
+n_harness! { 30, fn c08_integer_c_pos() { integer_concrete(false) } }
+
 /// i64::MIN / i64::MAX and their neighbours: the 18 leading digits are concrete, the last digit and
 /// the sign are symbolic (in range).
 fn integer_limits<const NEG: bool>() {
